@@ -54,7 +54,9 @@ def run(ctx):
                 f"-2..3, other shapes {consts['PoolSize']} arrays each), the same functions on one array with no axis and with every "
                 "axis, stack at every axis, concat along every axis (also 1-D arrays of different lengths), take with every "
                 "integer index and with index sequences, add/subtract/multiply/divide/pow on equal shapes and with a scalar, "
-                "and f(f(b1),..,f(bk)) through the implementation for every composition 1<k<n; each case evaluated on numpy "
+                "and f(f(b1),..,f(bk)) through the implementation for every composition 1<k<n (all float64); plus dtype bool "
+                "(entries 0/1) and int8 (entries 100,127,-128,2): sum/prod/min/max/mean over 2..3 arrays, int8 add/multiply "
+                "(wrap modulo 256), batched sum/prod/min/max; each case evaluated on numpy "
                 "arrays and on DataArrays; non-trivial = more than one element involved; batchability of each variadic "
                 f"function decided by TLC on 1..{consts['BatchArgs']} arguments, every composition into consecutive batches",
         "clauses": ["raised", "shape_differs", "value_differs", "marked_but_not_batchable",
@@ -73,8 +75,10 @@ def run(ctx):
             ctx.violate("marks:" + n, f"batchable marker: {n} (marked in the library: {marked}; the model decides by evaluating "
                         "f(f(b1),..,f(bk)) = f(all) on every composition)", {"marked": marked}, clause=n.split(":")[0])
     ctx.assumptions += [
-        "values are exact small integers/rationals held in float64 arrays; a float is read back as the rational with denominator "
-        "<= 4096 within 1e-9 (no claim about dtypes, rounding, overflow, NaN/inf; DESIGN.md section 8)",
+        "dtypes float64, bool and int8 only; bool (op) bool for the two-argument functions and var/std of int8 are not in the "
+        "domain; other dtypes, float rounding, NaN/inf are not claimed (DESIGN.md section 8)",
+        "values are exact small integers/rationals; a float is read back as the rational with denominator "
+        "<= 4096 within 1e-9",
         "std is compared squared (sign kept); a batch of one argument is handed on unchanged, as fluent.reduce does",
         "xarray objects are DataArrays without coordinates; Dataset and the earthkit FieldList backend are not covered",
     ]
